@@ -65,3 +65,6 @@ SPEC = {'id': 'C04',
                  'session ids of concurrent polls are pairwise distinct (progress / completion theorems of the full LTS only; the registration accounting theorems of Props/C04Reg hold for arbitrary ids)',
                  'no system step of another request disables an enabled step (commutation, argued not proved)'],
  'race': True}
+
+SPEC['rule'] += (' Added after the seeded-change rounds: ' +
+    "Oracle-only scenarios (shared with C02/C03): same-sid-two-idle-polls (both polls under one id must complete at their timeouts and leave gauge and id map clean), an answer that arrives before any offer followed by the poll's timeout, several polls whose timers fall in the same millisecond.")
